@@ -1,18 +1,38 @@
 (* C09 -- disk/network counters: exact per-device values, totals never double count.
    Statements only; proofs live in C09/Proofs*.v.  Model: C09/Model.v (transcription of
    psutil/_pslinux.py net_io_counters / disk_io_counters / is_storage_device, the
-   psutil/__init__.py front ends, psutil/_psposix.py disk_usage), specification: C09/Spec.v
-   (kernel printers k_netdev / k_diskstats / k_sys_stat and the documented answers). *)
+   psutil/__init__.py front ends, psutil/_psposix.py disk_usage; text-mode reading through
+   C09/Text.v: UTF-8/surrogateescape decoding, universal newlines, str.split/strip blanks),
+   specification: C09/Spec.v (kernel printers k_netdev / k_diskstats / k_sys_stat and the documented
+   answers).  A str is the list of its code points; [dec n] is the str Python shows for the bytes n. *)
 From PV Require Import C09.Spec C09.Proofs.
 
-(* net_io_counters(pernic=True): for every list of interfaces with distinct printable names
-   (':' allowed) and every 16 digit strings per interface, in the modern and in the old column
-   format: every listed interface, in kernel order, with the eight documented fields taken from
-   kernel columns 9,1,10,2,3,11,4,12; {} when nothing is listed *)
+(* the named tuples the front ends build -- dumped from the code into coq/Gen/C09_Tables.v on every
+   run -- have the documented fields in the documented order (Linux sdiskio with read_merged_count,
+   write_merged_count, busy_time after the six portable fields), and a sector is 512 bytes *)
+Theorem C09_fields_documented :
+  gen_snetio_fields = map fst (nt_nic nic_zero) /\
+  gen_snetio_fields = [bs "bytes_sent"; bs "bytes_recv"; bs "packets_sent"; bs "packets_recv";
+                       bs "errin"; bs "errout"; bs "dropin"; bs "dropout"] /\
+  gen_sdiskio_fields = map fst (nt_disk disk_zero) /\
+  gen_sdiskio_fields = [bs "read_count"; bs "write_count"; bs "read_bytes"; bs "write_bytes";
+                        bs "read_time"; bs "write_time";
+                        bs "read_merged_count"; bs "write_merged_count"; bs "busy_time"] /\
+  gen_sdiskusage_fields = [bs "total"; bs "used"; bs "free"; bs "percent"] /\
+  gen_disk_sector_size = 512.
+Proof. exact fields_documented. Qed.
+Print Assumptions C09_fields_documented.
+
+(* net_io_counters(pernic=True), nowrap=False path end to end: for every list of interfaces whose
+   names are ANY bytes (':' '/' digits, non-ASCII, undecodable bytes, blanks inside) as long as the
+   name's str does not begin or end with a str blank and holds no line break, pairwise distinct,
+   and every 16 digit strings per interface, in the modern and in the old column format: every
+   listed interface, in kernel order, keyed by the str of its name, with the eight documented
+   fields taken from kernel columns 9,1,10,2,3,11,4,12; {} when nothing is listed *)
 Theorem C09_net_pernic : forall sp l,
   wf_nics l = true ->
   net_io_counters true (k_netdev sp l)
-  = Val (RDict (map (fun i => (n_name i, nt_nic (spec_nic i))) l)).
+  = XV (Val (RDict (map (fun i => (dec (n_name i), nt_nic (spec_nic i))) l))).
 Proof. exact net_pernic. Qed.
 Print Assumptions C09_net_pernic.
 
@@ -20,39 +40,81 @@ Print Assumptions C09_net_pernic.
 Theorem C09_net_total : forall sp l,
   wf_nics l = true ->
   net_io_counters false (k_netdev sp l)
-  = Val (match l with [] => RNone | _ => RTuple (nt_nic (nic_sum (map spec_nic l))) end).
+  = XV (Val (match l with [] => RNone | _ => RTuple (nt_nic (nic_sum (map spec_nic l))) end)).
 Proof. exact net_total. Qed.
 Print Assumptions C09_net_total.
 
+(* finding: the excluded class is not empty for the kernel -- dev_valid_name() accepts "eth0\x1f"
+   (0x1c-0x1f, like U+0085 or U+2003 in UTF-8, are no blanks for the kernel), str.strip() drops the
+   trailing U+001F and the interface is reported under the name "eth0" *)
+Theorem C09_net_name_strip_refuted :
+  exists i,
+    dev_valid_name (n_name i) = true /\ forallb is_dec (nic_counters i) = true /\
+    spec_net true [i] = RDict [(bs "eth0" ++ [31], nt_nic (spec_nic i))] /\
+    net_io_counters true (k_netdev true [i]) = XV (Val (RDict [(bs "eth0", nt_nic (spec_nic i))])).
+Proof. exact net_name_strip_refuted. Qed.
+Print Assumptions C09_net_name_strip_refuted.
+
 (* disk_io_counters(perdisk=True): every listed device (disks and partitions, whatever /sys/block
-   holds), nine documented fields, sectors x 512, for the 14-, 18-, 20- (any >= 18-) and 7-field
-   layouts in any mix; {} when nothing is listed.  The 15-field layout is excluded: see
-   C09_disk_l24_refuted *)
+   holds; names any bytes whose str has no blank), nine documented fields, sectors x 512, for the
+   14-, 18-, 20- (any >= 18-) and 7-field layouts in any mix; {} when nothing is listed.  The
+   15-field layout is excluded: see C09_disk_l24_refuted *)
 Theorem C09_disk_perdisk : forall sb l,
   wf_disks l = true -> no_l24 l = true ->
   disk_io_counters true sb (ProcDiskstats (k_diskstats l))
-  = Val (RDict (map (fun d => (d_name d, nt_disk (spec_disk d))) l)).
+  = Val (RDict (map (fun d => (dec (d_name d), nt_disk (spec_disk d))) l)).
 Proof. exact disk_perdisk. Qed.
 Print Assumptions C09_disk_perdisk.
 
-(* disk_io_counters(perdisk=False): the field-wise sum over exactly the whole disks (the devices
-   with a /sys/block entry, '/' written '!'): partitions are never counted; None when no whole
-   disk is listed *)
+(* disk_io_counters(perdisk=False), for every table and EVERY content of /sys/block: the field-wise
+   sum over exactly the devices whose name -- every '/' written '!' -- is an entry of /sys/block
+   (physical or virtual: loopN, ramN, dm-N, mdN are entries like sda); None when there is none *)
 Theorem C09_disk_total : forall sb l,
-  wf_disks l = true -> no_l24 l = true -> sysblock_agrees sb l = true ->
+  wf_disks l = true -> no_l24 l = true ->
   disk_io_counters false sb (ProcDiskstats (k_diskstats l))
-  = Val (match filter d_whole l with
+  = Val (match filter (listed sb) l with
          | [] => RNone
          | ws => RTuple (nt_disk (disk_sum (map spec_disk ws)))
          end).
 Proof. exact disk_total. Qed.
 Print Assumptions C09_disk_total.
 
-(* the /sys/block listing derived from the device list itself satisfies the hypothesis above *)
+(* ... which is the sum over the kernel's whole disks when /sys/block lists exactly those *)
+Theorem C09_disk_total_whole : forall sb l,
+  wf_disks l = true -> no_l24 l = true -> sysblock_agrees sb l = true ->
+  disk_io_counters false sb (ProcDiskstats (k_diskstats l))
+  = Val (match filter d_whole l with
+         | [] => RNone
+         | ws => RTuple (nt_disk (disk_sum (map spec_disk ws)))
+         end).
+Proof. exact disk_total_whole. Qed.
+Print Assumptions C09_disk_total_whole.
+
 Theorem C09_sysblock_of_agrees : forall l,
-  NoDup (map (fun d => sysfs_name (d_name d)) l) -> sysblock_agrees (sysblock_of l) l = true.
+  NoDup (map (fun d => sysfs_name (dec (d_name d))) l) -> sysblock_agrees (sysblock_of l) l = true.
 Proof. exact sysblock_of_agrees. Qed.
 Print Assumptions C09_sysblock_of_agrees.
+
+(* no double counting.  Kernel-shaped table: names distinct; every device that is not a /sys/block
+   entry is a partition whose counter is its own I/O and whose parent is a /sys/block entry of the
+   table; a /sys/block entry's counter is its own I/O plus that of its partitions.  Then every
+   summable field f of the system-wide answer equals the sum, over ALL devices of the table, of
+   what was submitted to each device node: nothing counted twice, nothing left out *)
+Theorem C09_no_double_count : forall sb own parent f l,
+  wf_disks l = true -> no_l24 l = true -> filter (listed sb) l <> [] ->
+  linear f -> kernel_shaped sb own parent (fun d => f (spec_disk d)) l ->
+  exists total,
+    disk_io_counters false sb (ProcDiskstats (k_diskstats l)) = Val (RTuple (nt_disk total))
+    /\ f total = zsum (map own l).
+Proof. exact disk_total_no_double_count. Qed.
+Print Assumptions C09_no_double_count.
+
+(* the combinatorial core, for any counter assignment *)
+Theorem C09_no_double_count_sum : forall sb own parent fld l,
+  kernel_shaped sb own parent fld l ->
+  zsum (map fld (filter (listed sb) l)) = zsum (map own l).
+Proof. exact no_double_count_sum. Qed.
+Print Assumptions C09_no_double_count_sum.
 
 (* known finding: the kernel documentation's own 2.4 example line is read one column off
    (#blocks as read_count, ...) *)
@@ -62,7 +124,7 @@ Theorem C09_disk_l24_refuted :
     k_diskstats l =
       bs "   3     0   39082680 hda 446216 784926 9550688 4382310 424847 312726 5922052 19310380 0 3376340 23705160"
       ++ [10] /\
-    spec_disks true l
+    spec_disks sb true l
     = RDict [(bs "hda", nt_disk (Build_diskstat 446216 424847 (9550688 * 512) (5922052 * 512)
                                                 4382310 19310380 784926 312726 3376340))] /\
     disk_io_counters true sb (ProcDiskstats (k_diskstats l))
@@ -75,17 +137,18 @@ Print Assumptions C09_disk_l24_refuted.
    (model_view = spec_disk except on a 2.4 line, where it is the shifted reading): names,
    filtering and summation are right there too *)
 Theorem C09_disk_all_layouts : forall sb l perdisk,
-  wf_disks l = true -> perdisk = true \/ sysblock_agrees sb l = true ->
+  wf_disks l = true ->
   disk_io_counters perdisk sb (ProcDiskstats (k_diskstats l))
-  = Val (if perdisk then RDict (map (fun d => (d_name d, nt_disk (model_view d))) l)
-         else match filter d_whole l with
+  = Val (if perdisk then RDict (map (fun d => (dec (d_name d), nt_disk (model_view d))) l)
+         else match filter (listed sb) l with
               | [] => RNone
               | ws => RTuple (nt_disk (disk_sum (map model_view ws)))
               end).
 Proof. exact disk_all_layouts. Qed.
 Print Assumptions C09_disk_all_layouts.
 
-(* no /proc/diskstats: the /sys/block/<disk>[/<partition>]/stat walk gives the same answers *)
+(* no /proc/diskstats: the /sys/block/<disk>[/<partition>]/stat walk gives the same answers
+   (directory names: any bytes without '/') *)
 Theorem C09_sysfs_fallback : forall sb l perdisk,
   wf_syss l = true -> perdisk = true \/ sys_agrees sb l = true ->
   disk_io_counters perdisk sb (SysBlock (map (fun e => (y_name e, k_sys_stat e)) l))
